@@ -468,6 +468,7 @@ func checkFlatten(w *World, r *Result) {
 	// locate: the flattening site -- variadic append of X.Fields..., or a loop over X.Fields that appends one
 	// element per promoted field -- and the regular append (StructField literal outside that loop)
 	var flatten, regular *ast.CallExpr
+	var regularLit *ast.CompositeLit
 	var flattenLoop *ast.RangeStmt
 	fieldsField := w.Field("analysis", "Struct", "Fields")
 	ast.Inspect(fi.Decl.Body, func(n ast.Node) bool {
@@ -493,6 +494,13 @@ func checkFlatten(w *World, r *Result) {
 				flatten = call
 			} else if _, ok := call.Args[1].(*ast.CompositeLit); ok {
 				regular = call
+			} else if id := identOf(call.Args[1]); id != nil {
+				if defs := defsIn(info, fi.Decl, objOf(info, id)); len(defs) == 1 {
+					if _, ok := ast.Unparen(defs[0]).(*ast.CompositeLit); ok {
+						regular = call
+						regularLit = ast.Unparen(defs[0]).(*ast.CompositeLit)
+					}
+				}
 			}
 		}
 		return true
@@ -566,6 +574,7 @@ func checkFlatten(w *World, r *Result) {
 	}
 	// the comma-ok *Struct test shows up as an identifier condition (isStruct); resolve it
 	hasEmbedded, hasStruct, hasNoName, extra := false, false, false, []string{}
+	helperWhy := ""
 	for _, c := range conds {
 		if c.expr == nil || c.loop {
 			continue
@@ -578,6 +587,9 @@ func checkFlatten(w *World, r *Result) {
 			hasStruct = true
 		case c.truth && isJSONNameEmpty(info, fi.Decl, c.expr):
 			hasNoName = true
+		case helperComparesNames(w, info, c.expr):
+			helperWhy = "the flattening test decides `the tag names the field` by comparing JSONName() with the Go field name: a tag that spells the Go name itself (`Base `json:\"Base\"``) passes for `no name`, so the embedded struct is flattened where encoding/json nests it under that key"
+			extra = append(extra, s)
 		default:
 			if !c.truth {
 				s = "!(" + s + ")"
@@ -588,9 +600,35 @@ func checkFlatten(w *World, r *Result) {
 	pos := w.Pos(flatten.Pos())
 	r.cond(hasEmbedded && hasStruct && hasNoName && len(extra) == 0, "AGR-C09c", name, "flatten iff Embedded(), no json name and *Struct", pos,
 		"the fields of an embedded field are merged exactly when it is embedded, its json tag has no name part (a name, or \"-\", makes it a regular field for encoding/json) and the analysed type is a struct",
-		"the flattening branch is guarded by {"+strings.Join(cs, " ; ")+"} instead of exactly {field.Embedded(), json name part == \"\", type is *Struct}: encoding/json promotes the fields of an embedded struct only when its tag gives it no name, so keys are merged that Go nests or omits (or the reverse)")
+		func() string {
+			if helperWhy != "" {
+				return helperWhy
+			}
+			return "the flattening branch is guarded by {" + strings.Join(cs, " ; ") + "} instead of exactly {field.Embedded(), json name part == \"\", type is *Struct}: encoding/json promotes the fields of an embedded struct only when its tag gives it no name, so keys are merged that Go nests or omits (or the reverse)"
+		}())
+	// no field is dropped: a `continue` in the loop is only reached on the flattening path (the field's own fields
+	// were appended); an embedded field that is not a struct stays a regular field, keyed by its type name
+	ast.Inspect(fi.Decl.Body, func(n ast.Node) bool {
+		bs, ok := n.(*ast.BranchStmt)
+		if !ok || bs.Tok != token.CONTINUE {
+			return true
+		}
+		onFlatten := false
+		for _, c := range pathConds(fi.Decl, bs) {
+			if c.expr != nil && c.truth && isStructOkVar(info, fi.Decl, c.expr) {
+				onFlatten = true
+			}
+		}
+		r.cond(onFlatten, "AGR-C09c", name, "continue at "+w.Pos(bs.Pos()), w.Pos(bs.Pos()),
+			"only the flattening path skips the regular append",
+			"a field is skipped (`continue`) on a path where its fields were not merged: an embedded field that is not a struct (type Tags []string; struct{ Tags }) disappears from the field list, while encoding/json serialises it under its type name")
+		return true
+	})
 	// regular append: StructField{Type: fieldType, Field: field, Tag: tag} with tag := StructTag(typ.Tag(i)) same i
-	lit := regular.Args[1].(*ast.CompositeLit)
+	lit := regularLit
+	if lit == nil {
+		lit = regular.Args[1].(*ast.CompositeLit)
+	}
 	okField, okTag, okType := false, false, false
 	for _, el := range lit.Elts {
 		kv, ok := el.(*ast.KeyValueExpr)
@@ -694,4 +732,31 @@ func isJSONNameEmpty(info *types.Info, fd *ast.FuncDecl, e ast.Expr) bool {
 		return true
 	})
 	return found && n == 1
+}
+
+// helperComparesNames: e is (the negation of) a call of a module function whose result compares JSONName() with
+// the Go field name.
+func helperComparesNames(w *World, info *types.Info, e ast.Expr) bool {
+	call, ok := ast.Unparen(e).(*ast.CallExpr)
+	if !ok {
+		return false
+	}
+	fn := calleeOf(info, call)
+	if fn == nil || w.Funcs[fn] == nil || w.Funcs[fn].Decl.Body == nil {
+		return false
+	}
+	hf := w.Funcs[fn]
+	found := false
+	ast.Inspect(hf.Decl.Body, func(x ast.Node) bool {
+		be, ok := x.(*ast.BinaryExpr)
+		if !ok || (be.Op != token.NEQ && be.Op != token.EQL) {
+			return true
+		}
+		t := es(be)
+		if strings.Contains(t, "JSONName()") && strings.Contains(t, ".Name()") {
+			found = true
+		}
+		return true
+	})
+	return found
 }
